@@ -10,6 +10,16 @@ from twosigma.memento.metadata import ResultType
 from twosigma.memento.reference import FunctionReference, FunctionReferenceWithArguments
 
 
+class _Rec:
+    """execution recorder (an instance of a plain class: not a tracked global variable)"""
+
+    def __init__(self):
+        self.calls = []
+
+
+REC = _Rec()
+
+
 @memento_function(version="1")
 def fa(x):
     return x
@@ -22,12 +32,14 @@ def fb(x):
 
 @memento_function(cluster="vc", version="1")
 def ga(x):
+    REC.calls.append(("ga", x))
     return x
 
 
 @memento_function(cluster="vc", version="1")
 def gb(x):
-    return x
+    REC.calls.append(("gb", x))
+    return [x, "gb"]
 
 
 def fn_ref(fn, version=None):
